@@ -260,6 +260,27 @@ example :
        ([116, 110], .str [39, 34, 92, 10, 233, 65534]), ([97, 110], .none), ([120], .int (-7))]
     (optdataOf (fun c => c == 65534) opts).bind remoteOptions = some opts := by decide
 
+/-- **The server is entered with the client's values.**  With the parameter list of the
+working tree's `server.main` and the call at the end of the working tree's `assembler.py`:
+whatever the assembled options module holds, every parameter of `server.main` receives the
+option *of the same name* — and the parameters are exactly the options the client sends.
+(Together with `C18_options_wire`: the value the client gave for that name.) -/
+theorem C18_server_main_receives (ns : String → Option Val) :
+    enterMain Gen.C18.SERVER_MAIN_PARAMS Gen.C18.MAIN_BINDING ns =
+      Gen.C18.SERVER_MAIN_PARAMS.map (fun p => (p, ns p)) ∧
+    (∀ k ∈ Gen.C18.OPTION_KEYS, k ∈ Gen.C18.SERVER_MAIN_PARAMS) := by
+  refine ⟨?_, pin_main_params.2.1⟩
+  rw [pin_main_binding]
+  exact zip_map_self _ _
+
+/-- A call order that differs from the parameter list hands values to the wrong
+parameters (the seeded change "server.main's parameters reordered"): the statement above
+is not a tautology of `enterMain`. -/
+theorem C18_reordered_main_breaks :
+    enterMain ["auto_nets", "to_nameserver"] ["to_nameserver", "auto_nets"]
+        (fun k => if k = "auto_nets" then some (.bool true) else some .none) ≠
+      [("auto_nets", some (.bool true)), ("to_nameserver", some .none)] := by decide
+
 /-! ## 4. Nothing is written between the upload and the server's announcement -/
 
 /-- **Nothing before sync.**  In every run of the client's start-up — every upload, every
